@@ -4,7 +4,7 @@
 From Coq Require Import Strings.String Strings.Ascii.
 From Coq Require Import List ZArith NArith Bool Lia.
 From Astisub Require Import Kit.Base Kit.Str Kit.Scan Model.Dur Model.Ssa.
-From Astisub Require Import Proofs.VttBase Proofs.ScanProofs Proofs.EolProofs Proofs.SsaFields Proofs.SsaTrim Proofs.SsaRows Proofs.SsaLines
+From Astisub Require Import Proofs.VttBase Proofs.ScanProofs Proofs.EolProofs Proofs.SsaFields Proofs.SsaText Proofs.SsaTrim Proofs.SsaRows Proofs.SsaLines
   Proofs.SsaInfo Proofs.SsaInfoOrder Proofs.SsaStyles Proofs.SsaEvents Proofs.SsaIgnore.
 Import ListNotations.
 Open Scope N_scope.
@@ -152,6 +152,22 @@ Proof.
   f_equal. f_equal. f_equal. apply filter_all. apply forallb_forall. intros ev Hev. apply in_map_iff in Hev.
   destruct Hev as (p & <- & Hp). rewrite Forall_forall in Herows. destruct (Herows p Hp) as (_ & _ & Hcat & _).
   unfold is_dialogue. rewrite Hcat. apply str_eqb_refl.
+Qed.
+
+(* the item an event denotes: times and attributes as read, the style resolved by name (then without a leading '*'),
+   the text -- lines rendered with any mixture of \N and \n -- split back into its lines and runs under the speaker name *)
+Theorem event_item_denotes ev m ls seps : ls <> [] -> Forall line_ok ls ->
+  av_text ev = join_seps seps (map line_string ls) ->
+  event_item ev m =
+  mkAitem (av_start ev) (av_end ev)
+          (match av_style ev with
+           | [] => None
+           | n => if sm_mem n m then Some n else if sm_mem (trim_prefix star n) m then Some (trim_prefix star n) else None
+           end)
+          (Some (mkAevattr (av_effect ev) (av_layer ev) (av_ml ev) (av_mr ev) (av_mv ev) (av_marked ev)))
+          (map (fun l => mkAline (av_name ev) (al_runs l)) ls).
+Proof.
+  intros Hne Hl Ht. unfold event_item. rewrite Ht, (text_lines_rendered (av_name ev) ls seps Hne Hl). reflexivity.
 Qed.
 
 (* ---- non-vacuity: a document with permuted columns, an unknown column, the TertiaryColour alias, a boolean written -1,
